@@ -17,6 +17,9 @@ pub fn from_string_inner(ast: &DeriveInput) -> syn::Result<TokenStream> {
 
     let type_properties = ast.get_type_properties()?;
     let strum_module_path = type_properties.crate_module_path();
+    // The phf map is a `static`, which cannot mention the generic parameters of the enum.
+    // `use_phf` is only an optimisation, so fall back to the plain `match` for generic enums.
+    let use_phf = type_properties.use_phf && ast.generics.params.is_empty();
 
     let mut default_kw = None;
     let (mut default_err_ty, mut default) = match (
@@ -118,7 +121,7 @@ pub fn from_string_inner(ast: &DeriveInput) -> syn::Result<TokenStream> {
 
         // If we don't have any custom variants, add the default serialized name.
         for serialization in variant_properties.get_serializations(type_properties.case_style) {
-            if type_properties.use_phf {
+            if use_phf {
                 phf_exact_match_arms.push(quote! { #serialization => #name::#ident #params, });
 
                 if is_ascii_case_insensitive {
